@@ -85,6 +85,11 @@ def cases(tier, seed):
         for nam, cn in (("HELLO", None), (None, "cli")):
             for sub in SUBSETS:
                 yield {"size": size, "origin": 0x10000 - size, "nam": nam, "cliname": cn, "end": "none", "out": list(sub)}
+    # a program that fills the whole memory, $0000-$FFFF (65,536 bytes): a tape and a raw binary hold it; a disk's machine-language
+    # length field cannot, so --to_dsk may refuse ("Unable to save disk file") - what it must not do is write something else
+    for origin in (0, None):
+        for sub in SUBSETS:
+            yield {"size": 65536, "origin": origin, "nam": "FULLMEM", "cliname": None, "end": "none", "out": list(sub)}
     # NAM is a directive like any other: it may stand after the ORG or at the end of the program
     for size in (1, 39):
         for origin in (None, 0x0E00):
@@ -208,6 +213,8 @@ def check_case(case):
             if got[o] is not None:
                 bad("{} image created without any program name".format(o), "no file", "{} bytes".format(len(got[o])))
             continue
+        if got[o] is None and o == "dsk" and len(image) > 65535 and "Unable to save disk file" in out:
+            continue          # refused with a message: 65,536 bytes do not fit the 16-bit length field of a disk's machine-language file
         if got[o] is None:
             bad("{} image not written".format(o), "out." + o, "missing (stdout: {})".format(out[-80:]))
             continue
